@@ -70,5 +70,17 @@ os.makedirs(d, exist_ok=True)
 for f in ('patch.diff', 'demo.py', 'notes.md'):
     if os.path.exists(os.path.join(src, f)):
         shutil.copy(os.path.join(src, f), os.path.join(d, f))
+hist = []
+try:
+    old = json.load(open(os.path.join(d, 'meta.json')))
+    hist = old.get('history', [])
+    if old.get('checks') and not hist:
+        hist = [{'when': 'first evaluation', 'checks': old['checks']}]
+except Exception:
+    pass
+rc, head = sh('git -C /verif rev-parse --short HEAD')
+hist.append({'when': time.strftime('%Y-%m-%d %H:%M'), 'verif_commit': head.strip(), 'checks': meta['checks']})
+meta['history'] = hist
+meta['needs'] = 'see notes.md (what the change needs in order to manifest)'
 json.dump(meta, open(os.path.join(d, 'meta.json'), 'w'), indent=1)
 print(json.dumps(meta, indent=1)[:3000])
